@@ -89,6 +89,12 @@ def find(names, repo, violations):
 def replay(ds, repo):
     rc = 0
     for d in ds:
+        if d.get("kani"):
+            import kani_run as K
+            out = K.replay(d["harness"], d.get("input_hex") or "", repo) if hasattr(K, "replay") else {"note": "kani_run.replay not available", "recorded": d.get("native_replay")}
+            print(json.dumps(out)[:2000])
+            rc = 1
+            continue
         if d.get("native"):
             if d["program"] == "checksum_bounded":
                 nrc, out = run_native(d["program"], ["replay", d.get("content", ""), d.get("reads", "")], repo)
